@@ -163,6 +163,12 @@ def run(chk, P):
     frames.c20(chk, P)
     import typestate
     typestate.c20(chk, P)
+    chk.rule('R20.7', 'the sample-discard loop of a sample-accurate seek makes progress at half rate too: the remaining distance '
+             'in output samples is at least one whenever the body runs, also in links that start on an odd sample (same '
+             'obligations as R08.8)')
+    from rules import c08
+    c08.r08_8(common.Proxy(chk, 'R20.7'), P)
+    chk.floor('R20.7', 1)
     chk.trusted += ['clang 14 front end', 'call graph', 'K4 intervals with symbolic bounds']
     return ('Units-of-measure typing separates stream samples from decoder-output samples and requires the half-rate shift at '
             'every crossing; path and order rules decide that a refused toggle changes nothing, rolls back all links, and that '
